@@ -143,8 +143,8 @@ def tok_cardinality(tier):
     return total - overlap
 
 
-DOCS = ['{"x": true}', '{"x": false}', '{"x": 1}', '{"y": 1}', "[1]", "not json", "", '{"x": "é"}', '{"x": 1.0}', '{"x": "a\u2028b"}']   # 1.0 == True == 1 in Python: value-keyed caches collide
-TWO_LINE = ['{"x":\n true}', '{"x":\n false}', '{"x":\n 1}', '{"y":\n 1}', "[\n1]", "not\njson", "\n", '{"x":\n "é"}', '{"x":\n 1.0}', '{"x":\n "a\u2028b"}']
+DOCS = ['{"x": true}', '{"x": false}', '{"x": 1}', '{"y": 1}', "[1]", "not json", "", '{"x": "é"}', '{"x": 1.0}', '{"x": "a\u2028b"}', '{"x": 9223372036854775808}']   # 1.0 == True == 1 in Python: value-keyed caches collide
+TWO_LINE = ['{"x":\n true}', '{"x":\n false}', '{"x":\n 1}', '{"y":\n 1}', "[\n1]", "not\njson", "\n", '{"x":\n "é"}', '{"x":\n 1.0}', '{"x":\n "a\u2028b"}', '{"x":\n 9223372036854775808}']
 OPTSETS = [([], "jq"), (["-b"], "jq"), (["-p", "pk"], "pk"), (["-d", "d"], "d"), (["-b", "-d", "d"], "d")]
 DOC_EXPRS = [".x", ".x == true", ".x > 0", "{var}.x"]
 CONFIGS = [(opts, var, e.format(var=var)) for opts, var in OPTSETS for e in DOC_EXPRS]
@@ -705,9 +705,9 @@ def validate_model():
         e = n_exprs(tier)
         if len(e) != len(set(e)) or len(e) != n_exprs_cardinality(tier):
             raise runner.HarnessError(f"-n expression list ({tier}): {len(e)} generated, {len(set(e))} distinct, cardinality {n_exprs_cardinality(tier)}")
-    if [cli.doc_kind(d) for d in DOCS] != ["ok", "ok", "ok", "ok", "ok", "malformed", "empty", "ok", "ok", "ok"]:
+    if [cli.doc_kind(d) for d in DOCS] != ["ok", "ok", "ok", "ok", "ok", "malformed", "empty", "ok", "ok", "ok", "ok"]:
         raise runner.HarnessError("document alphabet kinds")
-    if [cli.doc_kind(d) for d in TWO_LINE] != ["ok", "ok", "ok", "ok", "ok", "malformed", "empty", "ok", "ok", "ok"]:
+    if [cli.doc_kind(d) for d in TWO_LINE] != ["ok", "ok", "ok", "ok", "ok", "malformed", "empty", "ok", "ok", "ok", "ok"]:
         raise runner.HarnessError("two-line document kinds")
     if any(json.loads(a) != json.loads(b) for a, b in zip(DOCS, TWO_LINE) if cli.doc_kind(a) == "ok"):
         raise runner.HarnessError("two-line spellings denote different documents")
